@@ -13,7 +13,7 @@ DESCRIPTION = {
              "or after it is delivered.  Send side: sendMessage around the limit: over-limit raises PayloadExceededError and writes nothing, with compression and context "
              "takeover the following messages still arrive intact at the peer.  Decompression cap (max_message_size on the accept objects): a compressible message inflating "
              "above the cap is never delivered truncated/altered and later messages are intact or the connection is failed.  With compression negotiated the peer also sends compressed messages (RSV1; raw-deflate stored blocks built to the exact wire size).  Header-only frames announcing >= 4 GiB (upper half of the 64-bit length in use) must fail at the header.  While the payload of a refused frame keeps arriving (transport still up) the octets held by the protocol object must not grow.  Non-trivial = total within +-1 of a limit, "
-             "excess first appearing in a continuation frame, or header-only delivery; distinct by (limits, fragment sizes, role)."),
+             "excess first appearing in a continuation frame, or header-only delivery; distinct by (limits, fragment sizes, role). In a third of the receive and decompression-cap cases the application first had an over-limit sendMessage() refused on the same connection (PayloadExceededError, nothing written, connection stays up): the receive-side limits must be unaffected."),
     "assumptions": ["with compression negotiated the frame/message limits bound the wire payload (sum of declared frame lengths); the inflated size is bounded only by the decompression cap"],
 }
 
